@@ -12,6 +12,8 @@ from __future__ import annotations
 
 import ast
 
+from .helpers import Every  # noqa: E402
+
 from .. import terms as T
 from ..model import AnalysisError, self_attr, walk_no_nested
 from ..paths import unversion
@@ -45,6 +47,8 @@ def _default(chk, ctx) -> None:
     isbool = T.spec('isinstance(status_or_hole_cards, bool)', boolean=True)
     want = T.spec('self.all_in_status or self.can_win_now(P)', boolean=True)
     ok_default = ok_bool = False
+    ok_bool = Every()
+    ok_default = Every()
     got = None
     for p in ctx.paths(fi):
         if not p.returned:
@@ -57,9 +61,9 @@ def _default(chk, ctx) -> None:
         if none in cs:
             got = status
             w = T.subst(want, {('name', 'P'): pi})
-            ok_default = T.truthy(status) == w or status == w
+            ok_default.see(T.truthy(status) == w or status == w)
         if isbool in cs:
-            ok_bool = status == ('name', 'status_or_hole_cards')
+            ok_bool.see(status == ('name', 'status_or_hole_cards'))
     chk.ob('C12.default', 'State.verify_hole_cards_showing_or_mucking', ok_default and ok_bool, fi.loc,
            'left to the engine, a player shows iff the hand is all-in or his hand can still win something; an explicit True/False is obeyed',
            got=T.show(got) if got else None, want='self.all_in_status or self.can_win_now(player)')
@@ -206,17 +210,20 @@ def _order(chk, ctx) -> None:
     fi = ctx.sfi('_begin_showdown')
     i = ('elem', ('self', 'player_indices'))
     ok_q = ok_rot = ok_drop = False
+    ok_q = Every()
+    ok_drop = Every()
+    ok_rot = Every()
     for p in ctx.paths(fi):
         cs = [unversion(c) for c in p.conds()]
         for e in p.writes():
             r = T.root_self_attr(e.term)
             v = unversion(e.value)
             if r == 'showdown_indices' and e.op == 'set':
-                ok_q = v == T.spec('deque(self.player_indices)')
+                ok_q.see(v == T.spec('deque(self.player_indices)'))
             if r == 'showdown_indices' and e.op == 'call:rotate':
-                ok_rot = v == ('tuple', (T.neg(('self', 'opener_index')),)) and T.spec('self.opener_index is not None', boolean=True) in cs
+                ok_rot.see(v == ('tuple', (T.neg(('self', 'opener_index')),)) and T.spec('self.opener_index is not None', boolean=True) in cs)
             if r == 'showdown_indices' and e.op == 'call:remove':
-                ok_drop = v == ('tuple', (i,)) and T.spec('not self.statuses[i] or all(self.hole_card_statuses[i])', {'i': i}, boolean=True) in cs
+                ok_drop.see(v == ('tuple', (i,)) and T.spec('not self.statuses[i] or all(self.hole_card_statuses[i])', {'i': i}, boolean=True) in cs)
     chk.ob('C12.order', 'State._begin_showdown', ok_q and ok_rot and ok_drop, fi.loc,
            'players show in clockwise order starting with the last aggressor; players who are out or whose cards are all face up are skipped',
            got=f'queue={ok_q} rotated_by_last_aggressor={ok_rot} skipped={ok_drop}')
